@@ -395,7 +395,7 @@ class Machine:
                 tv = self.truth(self.ev(e.args[0], fr, st))
                 if tv is not None:
                     return K(tv)
-            d_ = self.deps_of([self.ev(a, fr, st) for a in e.args])
+            d_ = self.deps_of([self.ev(a.value if isinstance(a, ast.Starred) else a, fr, st) for a in e.args] + [self.ev(k.value, fr, st) for k in e.keywords])
             q_ = self.prog.qualify(self.func(fr.fq).module, fn) if fn else ""
             if fn in NOT_NONE_CALLS or q_.startswith(("numpy.", "math.")):
                 return ("NN", d_)
@@ -954,9 +954,25 @@ class Stepper(Machine):
                 g = self.m.cfg(callee)
                 env = {}
                 params = callee.bound_params if callee.cls is not None and not callee.is_static else callee.params
-                for i, arg in enumerate(call.args):
-                    if i < len(params):
-                        env[params[i]] = self.ev(arg, fr, st)
+                pos = 0
+                for arg in call.args:
+                    if isinstance(arg, ast.Starred):
+                        # `f(*msg)`: a tuple value is spread over the next parameters; anything else gives each of them an unknown that depends on it
+                        v_ = self.ev(arg.value, fr, st)
+                        if isinstance(v_, tuple) and v_ and v_[0] == "T":
+                            for el in v_[1]:
+                                if pos < len(params):
+                                    env[params[pos]] = el
+                                pos += 1
+                        else:
+                            d__ = self.deps_of([v_])
+                            while pos < len(params):
+                                env[params[pos]] = ("U", d__)
+                                pos += 1
+                        continue
+                    if pos < len(params):
+                        env[params[pos]] = self.ev(arg, fr, st)
+                    pos += 1
                 for kw in call.keywords:
                     if kw.arg:
                         env[kw.arg] = self.ev(kw.value, fr, st)
